@@ -190,6 +190,13 @@ void runThreadOp(const std::string& op)
     g->tok[a % 32]->cancel();
     mark('E', "-");
   }
+  else if (k == "xr" && parts.size() == 2 && vh::parseNat(parts[1], a))
+  {
+    mark('B', "creset " + parts[1]);   // CancellationToken::reset(): the token is reused by a later call (never during one)
+    g->tokVt[a % 32] = -1;
+    g->tok[a % 32]->reset();
+    mark('E', "-");
+  }
   else if (k == "m" && parts.size() == 3 && vh::parseNat(parts[1], a))
   {
     ReadMode m;
@@ -293,6 +300,7 @@ std::string runSched(const std::vector<std::string>& t)
       c.args = vh::split(m.text);
       c.kind = c.args[0];
       if (c.kind == "cancel") { steps.push_back(StepLine{m.tid, "cancel " + c.args[1], "-"}); c.last = static_cast<long>(steps.size()) - 1; }
+      if (c.kind == "creset") { steps.push_back(StepLine{m.tid, "reset " + c.args[1], "-"}); c.last = static_cast<long>(steps.size()) - 1; }
       if (c.kind == "recvc")
       {
         // entry token check, then (same scheduling slice) the first loop head
@@ -333,7 +341,13 @@ std::string runSched(const std::vector<std::string>& t)
         else steps.push_back(StepLine{m.tid, "unexpected-callback", m.text});
         c.last = static_cast<long>(steps.size()) - 1;
       }
-      // gclose (global close callback) is not a step of the receive model
+      // the global close callback: a step of its own (`ioCloseCb`), in the place where it really ran relative to the handler's
+      // syncMutex section that marks the session closed (`ioClose`) - T8 is measured from here
+      else if (m.text.rfind("gclose:", 0) == 0)
+      {
+        steps.push_back(StepLine{m.tid, "ioCloseCb " + m.text.substr(7), m.text});
+        c.last = static_cast<long>(steps.size()) - 1;
+      }
     }
   };
   for (std::size_t i = 0; i <= tr.size(); ++i)
@@ -378,7 +392,7 @@ std::string runSched(const std::vector<std::string>& t)
     }
     else if (c.kind == "mode") st = (c.nlock == 0) ? "setMode " + c.args[1] + " " + c.args[2] : "flushStep " + c.args[1];
     else if (c.kind == "fence") st = (c.nlock == 0) ? "fence " + c.args[1] : "unexpected-lock";
-    else if (c.kind == "cancel") continue;
+    else if (c.kind == "cancel" || c.kind == "creset") continue;
     c.nlock++;
     if (st.empty()) continue;
     // a FORCED time-out that finds the wait predicate true is a lost notification; the tag lets the plugin's monitor see which wake-ups
@@ -483,6 +497,49 @@ std::string stepOp(const std::vector<std::string>& t)
   {
     g->tok[a % 32]->cancel();
     return "ok | " + stateOf(a);
+  }
+  if (t[0] == "creset" && t.size() == 2 && vh::parseNat(t[1], a))
+  {
+    g->tok[a % 32]->reset();
+    return "ok | " + stateOf(a);
+  }
+  if (t[0] == "closew" && t.size() == 3 && vh::parseNat(t[1], a))
+  {
+    // the close handler with a per-session close OBSERVER that lets an application thread call setReadMode(sid, m) and waits for it
+    // (the observer runs on the I/O thread after the global close callback; setReadMode itself is refused on the I/O thread)
+    ReadMode m;
+    if (!parseMode(t[2], m)) return "bad-op";
+    bool ok = false;
+    World* w = g;
+    g->t->observe(a, [w, m, &ok](SessionId sid, const TransportErrorInfo&) {
+      std::thread app([w, m, sid, &ok] { ok = w->t->setReadMode(sid, m); });
+      app.join();
+    });
+    fireClose(a);
+    return takeEvs() + " ret:" + (ok ? "1" : "0") + " | " + stateOf(a);
+  }
+  if (t[0] == "recvcx" && t.size() == 5 && vh::parseNat(t[1], a) && vh::parseNat(t[2], b) && vh::parseNat(t[3], c))
+  {
+    // receiveSyncCancellable on another thread; once its sub-call is parked (or the call has returned) the token is cancelled and THEN
+    // the chunk is delivered (same sub-interval): the bytes the sub-call takes out of the buffer must be returned
+    vh::Bytes d;
+    if (!vh::ofHex(t[4], d)) return "bad-op";
+    std::string r;
+    std::atomic<bool> done{false};
+    std::thread th([&] { r = recvResult(a, b, c, true); done.store(true); });
+    for (int i = 0; i < 4000 && !done.load(); ++i)
+    {
+      {
+        std::lock_guard<std::mutex> lk(g->t->_impl->syncMutex);
+        auto it = g->t->_impl->receiveBuffers.find(a);
+        if (it != g->t->_impl->receiveBuffers.end() && it->second->waiters > 0) break;
+      }
+      std::this_thread::sleep_for(std::chrono::microseconds(500));
+    }
+    g->tok[a % 32]->cancel();
+    fireData(a, d);
+    th.join();
+    return r + " " + takeEvs() + " | " + stateOf(a);
   }
   if (t[0] == "recvlong" && t.size() == 5 && vh::parseNat(t[1], a) && vh::parseNat(t[2], b) && vh::parseNat(t[3], c))
   {
